@@ -34,17 +34,25 @@ PosIn(p, x) == CHOOSE i \in 1..K : p[i] = x
 \* alias  : per declared part an undeclared decoy member whose name is what a WRONG reading of the
 \*          reference denotes: "decoded" = the name percent-decoded once more, "undecoded" = the
 \*          reference text taken literally, "query" = '+' read as a space (only where that name differs)
+\* chain  : the declaration chain.  EPUB container.xml: "one" rootfile; "altRev": a second package document
+\*          (same directory) listed AFTER the default one, with the spine reversed; "altSub": a second package
+\*          document in the container root listed after, declaring another part set (a part only it knows first,
+\*          then the parts the default declares at positions >= 2); "otherFirst": a rootfile of another media type
+\*          (OCF 2: another format of the book) listed BEFORE the package document; "three": other, default,
+\*          altRev, altSub.  OOXML: "infraFirst": the officeDocument relationship is the last one of /_rels/.rels and
+\*          workbook.xml.rels / presentation.xml.rels list styles, theme, masters ... before the sheets / slides
 \* paths "dot": references with a "./" segment
 \* decoy "conv": an undeclared member with the CONVENTIONAL name (xl/worksheets/sheet<k>.xml,
 \*          ppt/slides/slide<k>.xml) numbered by the missing position, in packages whose real
 \*          parts live elsewhere
 OProf(pa, tg, de, ex, inf) == [paths |-> pa, tgt |-> tg, decoy |-> de, extras |-> ex, infra |-> inf,
-                               enc |-> "none", opf |-> "root", ver |-> 0, extra |-> FALSE, missing |-> 0, alias |-> "none"]
+                               enc |-> "none", opf |-> "root", ver |-> 0, extra |-> FALSE, missing |-> 0, alias |-> "none", chain |-> "one"]
 EProf(pa, en, op, ve, de, xt, ex, inf) == [paths |-> pa, tgt |-> "rel", decoy |-> de, extras |-> ex, infra |-> inf,
-                               enc |-> en, opf |-> op, ver |-> ve, extra |-> xt, missing |-> 0, alias |-> "none"]
+                               enc |-> en, opf |-> op, ver |-> ve, extra |-> xt, missing |-> 0, alias |-> "none", chain |-> "one"]
 Miss(pr, m) == [pr EXCEPT !.missing = m]
 Enc(pr, e)  == [pr EXCEPT !.enc = e]
 Alias(pr, a) == [pr EXCEPT !.alias = a]
+ChainOf(pr, c) == [pr EXCEPT !.chain = c]
 
 OProfiles == { OProf("std", "rel", "none", TRUE, TRUE),      OProf("std", "abs", "last", FALSE, FALSE),
                OProf("nested", "rel", "first", FALSE, TRUE), OProf("renamed", "rel", "none", TRUE, FALSE),
@@ -58,7 +66,9 @@ OProfiles == { OProf("std", "rel", "none", TRUE, TRUE),      OProf("std", "abs",
                Alias(Enc(OProf("renamed", "abs", "none", TRUE, FALSE), "eC3A9"), "decoded"),
                Alias(Enc(OProf("nested", "rel", "last", FALSE, FALSE), "plusLit"), "query"),
                Enc(OProf("std", "abs", "none", FALSE, TRUE), "paren"), Enc(OProf("dot", "rel", "first", TRUE, FALSE), "amp"),
-               Alias(Enc(OProf("dot", "abs", "none", FALSE, TRUE), "pct2520"), "decoded"), OProf("dot", "rel", "none", FALSE, FALSE) }
+               Alias(Enc(OProf("dot", "abs", "none", FALSE, TRUE), "pct2520"), "decoded"), OProf("dot", "rel", "none", FALSE, FALSE),
+               \* the declaration chain
+               ChainOf(OProf("std", "rel", "last", TRUE, TRUE), "infraFirst"), ChainOf(OProf("renamed", "abs", "none", TRUE, FALSE), "infraFirst") }
 EProfiles == { EProf("std", "none", "one", 3, "none", FALSE, TRUE, TRUE),
                EProf("std", "sp20", "root", 2, "last", TRUE, FALSE, FALSE),
                EProf("nested", "plusLit", "one", 3, "none", FALSE, FALSE, TRUE),
@@ -80,7 +90,14 @@ EProfiles == { EProf("std", "none", "one", 3, "none", FALSE, TRUE, TRUE),
                EProf("renamed", "amp", "two", 2, "none", FALSE, TRUE, TRUE),
                Alias(EProf("std", "sp20", "one", 2, "none", FALSE, FALSE, FALSE), "undecoded"),
                Alias(EProf("nested", "plusLit", "root", 3, "none", FALSE, TRUE, TRUE), "query"),
-               Alias(EProf("dot", "plus2B", "two", 3, "none", TRUE, FALSE, FALSE), "undecoded") }
+               Alias(EProf("dot", "plus2B", "two", 3, "none", TRUE, FALSE, FALSE), "undecoded"),
+               \* the declaration chain
+               ChainOf(EProf("std", "none", "one", 3, "none", FALSE, TRUE, TRUE), "altRev"),
+               ChainOf(EProf("nested", "sp20", "two", 2, "last", FALSE, FALSE, FALSE), "altSub"),
+               ChainOf(EProf("std", "none", "root", 2, "none", TRUE, TRUE, FALSE), "otherFirst"),
+               ChainOf(EProf("renamed", "plusLit", "one", 2, "first", FALSE, FALSE, TRUE), "three"),
+               ChainOf(Miss(EProf("std", "none", "one", 3, "none", FALSE, FALSE, FALSE), 2), "altRev"),
+               ChainOf(EProf("dot", "none", "two", 3, "none", FALSE, TRUE, TRUE), "three") }
 \* (a parameter keeps TLC from evaluating the full product at startup of every run)
 OWide(dummy) == { o \in { Alias(Enc(Miss(OProf(pa, tg, de, ex, inf), m), en), al) :
                                          pa \in {"std", "nested", "renamed", "dot"}, tg \in {"rel", "abs"},
@@ -150,8 +167,23 @@ MkPkg(f, pr, d, r, z) ==
         alias == IF pr.alias = "none" \/ AliasSp(f, pr) = DecodeWith(StdMode(f), pr.enc) THEN <<>>
                  ELSE [i \in 1..K |-> [Part(f, pr, 70 + i, i, 0, 0, K + 2 + i) EXCEPT !.name.sp = AliasSp(f, pr)]]
         extra == IF pr.extra THEN << Part(f, pr, 91, K + 2, 0, K + 1, K + 2) >> ELSE <<>>
+        altonly == IF pr.chain \in {"altSub", "three"} THEN << Part(f, pr, 93, K + 3, 0, 0, K + 9) >> ELSE <<>>
+        byDecl == SetToSortSeq({real[i] : i \in 1..K}, LAMBDA a, b : a.decl < b.decl)
+        RootHref(x) == [x.href EXCEPT !.abs = FALSE, !.segs = x.name.dir]     \* from a package document in the root
+        main   == [media |-> "opf", auth |-> TRUE, dir |-> BaseOf(f, pr), file |-> "content", spine |-> <<>>, hrefs |-> <<>>]
+        other  == [media |-> "other", auth |-> FALSE, dir |-> <<"alt">>, file |-> "book", spine |-> <<>>, hrefs |-> <<>>]
+        altRev == [media |-> "opf", auth |-> FALSE, dir |-> BaseOf(f, pr), file |-> "alt1",
+                   spine |-> [i \in 1..K |-> byDecl[K + 1 - i].id], hrefs |-> [i \in 1..K |-> byDecl[K + 1 - i].href]]
+        altSub == [media |-> "opf", auth |-> FALSE, dir |-> <<>>, file |-> "alt2",
+                   spine |-> <<93>> \o [i \in 1..(K - 1) |-> byDecl[i + 1].id],
+                   hrefs |-> << RootHref(altonly[1]) >> \o [i \in 1..(K - 1) |-> RootHref(byDecl[i + 1])]]
+        roots  == CASE pr.chain = "altRev" -> <<main, altRev>>
+                    [] pr.chain = "altSub" -> <<main, altSub>>
+                    [] pr.chain = "otherFirst" -> <<other, main>>
+                    [] pr.chain = "three" -> (IF pr.ver = 2 THEN <<other>> ELSE <<>>) \o <<main, altRev, altSub>>
+                    [] OTHER -> <<main>>
     IN [fmt |-> f, base |-> BaseOf(f, pr), prof |-> pr, convdir |-> ConvDir(f, pr), convstem |-> ConvStem(f, pr),
-        parts |-> real \o decoy \o extra \o alias]
+        roots |-> roots, parts |-> real \o decoy \o extra \o alias \o altonly]
 
 MCInit ==
     /\ \E f \in Fmts : \E pr \in ProfilesOf(f) : \E d \in Perms, r \in ListPerms, z \in Perms :
@@ -163,7 +195,7 @@ MCSpec == MCInit /\ [][Next]_vars
 \* simulation: the package is drawn at random in the first step (enumerating the full
 \* product as initial states would be millions of states)
 NoPkg == [fmt |-> "none", base |-> <<>>, prof |-> OProf("std", "rel", "none", FALSE, FALSE), convdir |-> <<>>, convstem |-> "",
-          parts |-> <<>>]
+          roots |-> <<>>, parts |-> <<>>]
 SimInit == pkg = NoPkg /\ pages = <<>> /\ pos = 0
 \* every option is drawn separately (drawing from the full product would build it for every trace);
 \* a bound variable is evaluated once (a LET definition would be re-drawn at every use)
@@ -177,19 +209,22 @@ SimPick ==
             \E pa \in R({"std", "nested", "renamed", "dot"}), al \in R({"none", "decoded", "undecoded", "query"}),
                en \in R({"none", "sp20", "plusLit", "plus2B", "pct2520", "pct25z", "eC3A9", "eRaw", "paren", "amp"}),
                op \in R({"root", "one", "two"}), ve \in R({2, 3}), de \in R({"none", "first", "last"}),
-               xt \in R(BOOLEAN), ex \in R(BOOLEAN), inf \in R(BOOLEAN), m \in R(0..K) :
-               Draw(f, Alias(Miss(EProf(pa, en, IF pa = "renamed" /\ op = "root" THEN "one" ELSE op, ve, de, xt, ex, inf), m), al))
+               xt \in R(BOOLEAN), ex \in R(BOOLEAN), inf \in R(BOOLEAN), m \in R(0..K),
+               ch \in R({"one", "one", "altRev", "altSub", "otherFirst", "three"}) :
+               Draw(f, ChainOf(Alias(Miss(EProf(pa, en, IF pa = "renamed" /\ op = "root" THEN "one" ELSE op,
+                                               IF ch = "otherFirst" THEN 2 ELSE ve, de, xt, ex, inf), m), al), ch))
           ELSE
             \E pa \in R({"std", "nested", "renamed", "dot"}), tg \in R({"rel", "abs"}), de \in R({"none", "first", "last", "conv"}),
                ex \in R(BOOLEAN), inf \in R(BOOLEAN), m \in R(0..K),
-               en \in R({"none", "sp20", "plusLit", "pct2520", "eC3A9", "paren", "amp"}), al \in R({"none", "decoded", "query"}) :
-               Draw(f, Alias(Enc(Miss(OProf(pa, tg, IF de = "conv" /\ ~(m > 0 /\ pa \in {"nested", "renamed"}) THEN "none" ELSE de,
-                                            ex, inf), m), en), al))
+               en \in R({"none", "sp20", "plusLit", "pct2520", "eC3A9", "paren", "amp"}), al \in R({"none", "decoded", "query"}),
+               ch \in R({"one", "infraFirst"}) :
+               Draw(f, ChainOf(Alias(Enc(Miss(OProf(pa, tg, IF de = "conv" /\ ~(m > 0 /\ pa \in {"nested", "renamed"}) THEN "none" ELSE de,
+                                            ex, inf), m), en), al), ch))
     /\ UNCHANGED <<pages, pos>>
 SimNext == SimPick \/ (pkg.fmt # "none" /\ Next)
 SimSpec == SimInit /\ [][SimNext]_vars
 
 \* one case per package: the terminal state carries the pages the contract yields
-Emit == (pkg.fmt # "none" /\ Done) => PrintT(ToJson([fmt |-> pkg.fmt, base |-> pkg.base, prof |-> pkg.prof, parts |-> pkg.parts,
+Emit == (pkg.fmt # "none" /\ Done) => PrintT(ToJson([fmt |-> pkg.fmt, base |-> pkg.base, prof |-> pkg.prof, parts |-> pkg.parts, roots |-> pkg.roots,
                                pages |-> pages, count |-> Len(pages)]))
 =============================================================================
